@@ -63,13 +63,25 @@ type hWitness struct {
 	Model   *lakeh.AbsModel `json:"model"`
 	History lakeh.History   `json:"history"`
 	Issue   lakeh.Issue     `json:"issue"`
+	Handles int             `json:"handles,omitempty"`
 }
 
 func histReport(c *core.Ctx, m *lakeh.AbsModel) func(h lakeh.History, upto int, is lakeh.Issue) {
+	return histReportW(c, m, 0)
+}
+
+// histReportW: with long-lived handles a branch read that does not show the
+// model's contents is a reader seeing something else than the acknowledged state.
+func histReportW(c *core.Ctx, m *lakeh.AbsModel, handles int) func(h lakeh.History, upto int, is lakeh.Issue) {
 	return func(h lakeh.History, upto int, is lakeh.Issue) {
 		hh := append(lakeh.History(nil), h[:upto]...)
+		if handles > 0 && (is.Kind == lakeh.KContents || is.Kind == lakeh.KUnreadable) {
+			c.Violate("handle-view:"+is.Kind+":"+hh[len(hh)-1].Op, fmt.Sprintf("%s [%d long-lived handles; history: %s]", is.Detail, handles, hh),
+				hWitness{Model: m, History: hh, Issue: is, Handles: handles})
+			return
+		}
 		if is.Kind == lakeh.KCommit {
-			c.Violate("commit-data:"+hh[len(hh)-1].Op, fmt.Sprintf("%s [history: %s]", is.Detail, hh), hWitness{Model: m, History: hh, Issue: is})
+			c.Violate("commit-data:"+hh[len(hh)-1].Op, fmt.Sprintf("%s [history: %s]", is.Detail, hh), hWitness{Model: m, History: hh, Issue: is, Handles: handles})
 			return
 		}
 		c.Drift("(%s is claimed by C14/C15) %s: %s", is.Kind, is.Detail, hh)
@@ -119,7 +131,7 @@ func run(c *core.Ctx) error {
 			return err
 		}
 		if w.Scenario == nil {
-			rp := &lakeh.Replayer{C: c, M: w.Model, Ctx: ctx, CheckCommits: true, OnIssue: histReport(c, w.Model)}
+			rp := &lakeh.Replayer{C: c, M: w.Model, Ctx: ctx, CheckCommits: true, Warm: w.Handles > 0, WarmHandles: w.Handles, OnIssue: histReportW(c, w.Model, w.Handles)}
 			return rp.ReplayAll([]lakeh.History{w.History})
 		}
 		return schedOne(c, ctx, w.Scenario, &lakeh.JBehaviour{Sched: w.Sched}, true)
@@ -145,6 +157,27 @@ func run(c *core.Ctx) error {
 		if len(sub) > 0 {
 			c.Sample(map[string]any{"model": m.Name, "history": sub[len(sub)/2].String()})
 		}
+	}
+	// ---- (1b) the same through two long-lived handles: the handle that applies a step is
+	// chosen per step; the other handle (caches filled before the step) reads first
+	{
+		m := lakeh.WarmModel(c.Quick())
+		m.Name = "c13_two_handles"
+		m.Properties = []string{"Immutable"}
+		hs, res := lakeh.GenHistories(c, m, "", 8)
+		if res == nil {
+			return nil
+		}
+		if c.Quick() {
+			hs = lakeh.Sub(hs, 120, c.Seed)
+		}
+		rp := &lakeh.Replayer{C: c, M: m, Ctx: ctx, CheckCommits: true, Warm: true, WarmHandles: 2, OnIssue: histReportW(c, m, 2)}
+		if err := rp.ReplayAll(hs); err != nil {
+			return err
+		}
+		c.Add("traces_validated_against_impl", int64(len(hs)))
+		c.Add("replayed_steps", rp.Steps)
+		c.Logf("%s: TLC %d states, %d histories replayed through two long-lived handles, %d steps", m.Name, res.Distinct, len(hs), rp.Steps)
 	}
 	// ---- (2) schedules
 	for _, sc := range schedScenarios(c) {
